@@ -67,6 +67,11 @@ func phaseObserved(w *World, p *Pass, owner store.Obj, ph phaseInfo, probes []an
 		if len(obs) == 0 {
 			return false, true, "phase object not observed"
 		}
+		if dec := lastWriteResponse(p, "mgmt", phaseObjectKey(owner, ph.Name), before); dec != nil {
+			// the pass wrote the phase object itself (create, pause toggle): what it knows of the
+			// phase is the response of that write - a new generation nobody has reported on yet
+			obs = []store.Obj{dec}
+		}
 		for _, po := range obs {
 			okp := false
 			if po != nil {
@@ -93,6 +98,11 @@ func phaseObserved(w *World, p *Pass, owner store.Obj, ph phaseInfo, probes []an
 			continue
 		}
 		onePass := false
+		if dec := lastApplyResponse(p, tc, k, before); dec != nil {
+			// the pass applied the object itself: the gate decision rests on the response
+			// of that apply (generation, status as stored), not on an earlier cache read
+			obs = []store.Obj{dec}
+		}
 		for _, o := range obs {
 			if o != nil && RefProbe(probes, o) {
 				onePass = true
@@ -110,6 +120,35 @@ func phaseObserved(w *World, p *Pass, owner store.Obj, ph phaseInfo, probes []an
 		}
 	}
 	return
+}
+
+// lastApplyResponse returns the body returned by the pass's last successful
+// non-dry-run server-side apply on key before seq, or nil.
+func lastApplyResponse(p *Pass, cluster string, key store.Key, before uint64) store.Obj {
+	var out store.Obj
+	for _, r := range p.Reqs {
+		if before != 0 && r.Seq >= before {
+			break
+		}
+		if r.Cluster == cluster && r.Verb == "patch" && r.Patch == "apply" && !r.DryRun && r.Key() == key && r.Err == nil && r.Returned != nil {
+			out = r.Returned
+		}
+	}
+	return out
+}
+
+// lastWriteResponse is lastApplyResponse for any successful non-dry-run create, update or patch.
+func lastWriteResponse(p *Pass, cluster string, key store.Key, before uint64) store.Obj {
+	var out store.Obj
+	for _, r := range p.Reqs {
+		if before != 0 && r.Seq >= before {
+			break
+		}
+		if r.Cluster == cluster && (r.Verb == "patch" || r.Verb == "update" || r.Verb == "create") && !r.DryRun && r.Key() == key && r.Err == nil && r.Returned != nil {
+			out = r.Returned
+		}
+	}
+	return out
 }
 
 func isTeardownOwner(o store.Obj) bool {
